@@ -18,7 +18,7 @@ from .. import units, guards, effects
 MANIFEST = {
     "level": "other",
     "technique": "static analysis: audit of literal tables against each other (VSOP87 series vs orbital-element tables, Kepler III), interprocedural Angle-range typestate for the [0,360) clause, sibling comparison of the three series-evaluation blocks by value numbering, partial evaluation of the evaluator on symbolic literal tables (loops unrolled) compared with the direct term-by-term sum as a polynomial identity over Q, call-site argument audit of the 17 wrappers, effect analysis, anomaly-reduction decision table and true-anomaly relation of the Kepler solver (shared with C11); the Angle / Epoch operator semantics the evaluator assumes are verified (operator conformance, operands never written)",
-    "text": "The clauses of the property that are statements about literals (mean-longitude rate agreement to 1e-6, Kepler's third law) are decided completely from the tables; the [0,360) clause is decided for every path of the evaluators and all wrappers; the evaluator is shown to apply one and the same summation to L, B and R, that summation is shown to equal 1e-8 * sum_i tau^i sum_k A cos(B + C tau) identically for every series count in use (exact arithmetic; floating-point rounding not covered), and every wrapper to pass its own tables. Bounds on latitude/radius, monotonicity and agreement with Kepler positions depend on thousands of series terms at runtime epochs and are not decided.",
+    "text": "The clauses of the property that are statements about literals (mean-longitude rate agreement to 1e-6, Kepler's third law) are decided completely from the tables; the [0,360) clause is decided for every path of the evaluators and all wrappers; the evaluator is shown to apply one and the same summation to L, B and R, that summation is shown to equal 1e-8 * sum_i tau^i sum_k A cos(B + C tau) identically for every series count in use (exact arithmetic; floating-point rounding not covered), and every wrapper to pass its own tables. Bounds on latitude/radius, monotonicity and agreement with Kepler positions depend on thousands of series terms at runtime epochs and are not decided. As a premise the date <-> JDE conversions every Epoch passes through are executed on whole runs of civil days (R-CYCLE of C01): consecutive days exactly 1.0 apart, which the monotonic-longitude and daily-rate clauses presuppose.",
     "note": "Trusted: ast.literal_eval of the tables; the Gaussian constant 0.9856076686 deg/day (also used by the library). Undecided: latitude/radius bounds, monotone longitude, Kepler-orbit agreement, FK5/aberration sizes, rounding error of the summation order.",
 }
 
